@@ -12,18 +12,29 @@ static char results[MAXT][512];
 static int okflag[MAXT], foreign[MAXT];
 
 static const char *forms[] = {
-  "(import (scheme base) (srfi 69) (srfi 95) (chibi string))",
+  "(import (scheme base) (srfi 69) (srfi 95) (chibi string) (chibi ast))",
   "(define secret-%d %d)",
   "(define (fib n) (if (< n 2) n (+ (fib (- n 1)) (fib (- n 2)))))",
   "(define h (make-hash-table equal?))",
   "(let lp ((i 0)) (when (< i %d) (hash-table-set! h (number->string (* i %d)) (make-vector 8 i)) (lp (+ i 1))))",
   "(define l (sort (map (lambda (i) (modulo (* i %d) 1009)) (hash-table-values (let ((g (make-hash-table eqv?))) (let lp ((i 0)) (when (< i 300) (hash-table-set! g i i) (lp (+ i 1)))) g))) <))",
   "(define-record-type Rec%d (mk-rec a) rec? (a rec-a))",
+  /* a structure deep enough to overflow the collector's inline mark stack, kept alive over several collections */
+  "(define big (let lp ((i 0) (a '())) (if (< i 5000) (lp (+ i 1) (cons (list i i i) a)) a)))",
+  "(define (big-sum) (let lp ((l big) (s 0)) (if (null? l) s (lp (cdr l) (+ s (car (car l)) (car (cdr (car l))))))))",
+  "(define gcsum (let lp ((k 0) (s 0)) (if (< k 12) (begin (gc) (lp (+ k 1) (+ s (big-sum) (length (make-list 300 k))))) s)))",
+  NULL };
+/* types registered by a context BEFORE it imports a C-backed library: differs per thread (type tags are per context) */
+static const char *pre_types = "(define-record-type PreT%d (mk-pre%d a) pre%d? (a pre%d-a))";
+static const char *late_forms[] = {
+  "(import (srfi 27))",
+  "(define rnd-ok (guard (e (#t 'error)) (let ((r (random-integer 10))) (if (and (integer? r) (<= 0 r 9)) 'ok 'bad))))",
   NULL };
 static const char *final_fmt =
   "(string-append (number->string (fib %d)) \":\" (number->string (hash-table-size h)) \":\" (number->string (apply + l))"
   "   \":\" (symbol->string (string->symbol (string-append \"sym-\" (number->string %d)))) \":\" (number->string (rec-a (mk-rec %d)))"
-  "   \":\" (string-join (map number->string (list (string-length (make-string %d #\\x3bb)) (expt %d 30))) \",\"))";
+  "   \":\" (string-join (map number->string (list (string-length (make-string %d #\\x3bb)) (expt %d 30))) \",\")"
+  "   \":\" (number->string gcsum) \":\" (symbol->string rnd-ok))";
 
 static void* worker (void *arg) {
   int t = (int)(long)arg, j; sexp ctx, res; char buf[4096], probe[256];
@@ -31,8 +42,12 @@ static void* worker (void *arg) {
   ctx = sexp_make_eval_context(NULL, NULL, NULL, 0, 0);
   sexp_load_standard_env(ctx, NULL, SEXP_SEVEN);
   sexp_load_standard_ports(ctx, NULL, stdin, stdout, stderr, 1);
-  { int f; int a1[] = {0, t, 0, 0, 400 + 37 * t, 7 + 2 * t, t}, a2[] = {0, 1000 + t, 0, 0, 3 + t, 0, 0};
-    for (f = 0; forms[f]; f++) { snprintf(buf, sizeof(buf), forms[f], a1[f], a2[f]); res = sexp_eval_string(ctx, buf, -1, NULL); } }
+  { int f, q; int a1[] = {0, t, 0, 0, 400 + 37 * t, 7 + 2 * t, t, 0, 0, 0}, a2[] = {0, 1000 + t, 0, 0, 3 + t, 0, 0, 0, 0, 0};
+    sexp_eval_string(ctx, "(import (scheme base))", -1, NULL);
+    for (q = 0; q < (t % 4); q++) { snprintf(buf, sizeof(buf), pre_types, q, q, q, q); sexp_eval_string(ctx, buf, -1, NULL); }
+    sexp_eval_string(ctx, late_forms[0], -1, NULL);
+    for (f = 0; forms[f]; f++) { snprintf(buf, sizeof(buf), forms[f], a1[f], a2[f]); res = sexp_eval_string(ctx, buf, -1, NULL); }
+    sexp_eval_string(ctx, late_forms[1], -1, NULL); }
   snprintf(buf, sizeof(buf), final_fmt, 15 + (t % 5), t, 50 + t, 5 + t, 3 + t);
   res = sexp_eval_string(ctx, buf, -1, NULL);
   okflag[t] = sexp_stringp(res);
